@@ -58,6 +58,17 @@ for sig, rs in sorted(sigs.items()):
     open(p, "w").write(rs[0])
     print(f'VIOLATION property={ID} replay={p} sig="{sig}" cases={len(rs)} :: the race detector reports an unsynchronised access on anchored state in the free-running pass')
     status = 1
+m = re.search(r"^RACE-PASS STUCK.*$", out, re.M)
+if m:
+    sig = "free-running pass: operations of the code under test never return (deadlock)"
+    if sig in known:
+        print(f"KNOWN-FINDING: property={ID} {known[sig]} [{sig}]")
+    else:
+        p = f"{OUT}/replays/{ID}/race-stuck.txt"
+        open(p, "w").write(out[-20000:])
+        print(f'VIOLATION property={ID} replay={p} sig="{sig}" cases=1 :: {m.group(0)[:300]}')
+        status = 1; unknown += 1
+    rc = 66
 inconclusive = rc == 99
 if inconclusive:
     print(f"{ID} race-pass: the race-detector runtime aborted (internal CHECK / crash outside the code under test) in every attempt; pass inconclusive, no alarm")
